@@ -306,6 +306,8 @@ def check_property(prop, tier, seed, replay=None):
     samples = []
     dist = {}
     disagreements = []   # dicts
+    skipped = 0          # CFG["verdict"] said "skip" (no model verdict for that request)
+    triples = []         # (req, impl, model), kept only when CFG["counters"] is set
     nontrivial = cfg.get("nontrivial", lambda req, out: True)
     xref = {}
     if ok_drv:
@@ -331,6 +333,7 @@ def check_property(prop, tier, seed, replay=None):
                 continue
             vname = feat_key(v["features"]) + ("+" + ",".join(f"{k}={x}" for k, x in (extra_env or {}).items()) if extra_env else "")
             canon = cfg.get("canon")
+            verdict = cfg.get("verdict")   # optional (req, impl, model) -> "agree" | "disagree" | "skip"
             xops = set(cfg.get("xvariant_ops", []))
             for rq, im, mo in zip(reqs, impl, model):
                 evaluations += 1
@@ -346,8 +349,17 @@ def check_property(prop, tier, seed, replay=None):
                     distinct.add(hashlib.blake2b(rq.encode(), digest_size=8).digest())
                 if len(samples) < 6 and (evaluations % 9973 == 1 or evaluations < 3):
                     samples.append({"request": rq[:300], "impl": im[:200], "model": mo[:200], "variant": vname})
-                a, b = (canon(rq, im), canon(rq, mo)) if canon else (im, mo)
-                if a != b:
+                if cfg.get("counters"):
+                    triples.append((rq, im, mo))
+                if verdict:
+                    vd = verdict(rq, im, mo)
+                    if vd == "skip":
+                        skipped += 1
+                    differs = vd == "disagree"
+                else:
+                    a, b = (canon(rq, im), canon(rq, mo)) if canon else (im, mo)
+                    differs = a != b
+                if differs:
                     disagreements.append({"variant": vname, "features": v["features"], "env": extra_env,
                                           "request": rq, "impl": im, "model": mo})
     # ---- 5. classify disagreements
@@ -374,6 +386,8 @@ def check_property(prop, tier, seed, replay=None):
                     m2 = run_driver([c])[0]
                 except Exception:  # noqa
                     return False
+                if cfg.get("verdict"):
+                    return cfg["verdict"](c, i2, m2) == "disagree"
                 canon = cfg.get("canon")
                 return (canon(c, i2) != canon(c, m2)) if canon else (i2 != m2)
             small = shrink(prop, cfg, d["features"], d["env"], req, still)
@@ -429,6 +443,13 @@ def check_property(prop, tier, seed, replay=None):
         "notes": notes,
         "exhaustive": False,
     }
+    if cfg.get("verdict"):
+        cov["skipped"] = skipped
+    if cfg.get("counters"):
+        try:
+            cov.update(cfg["counters"](triples) or {})
+        except Exception as e:  # noqa
+            cov["counters_error"] = str(e)[:300]
     if tier == "thorough" and mods and not broken:
         t0 = time.time()
         r = subprocess.run(["lake", "env", "leanchecker"] + mods, cwd=LEAN, capture_output=True, text=True)
